@@ -493,6 +493,7 @@ func runC12(c *Ctx) {
 	runC12Round4(c)
 	runC12PtrString(c)
 	runC12Shares5(c)
+	runC12DeterministicUnflatten(c)
 }
 
 func guardedNilValue(b *ssa.BasicBlock, v ssa.Value) bool {
